@@ -293,7 +293,7 @@ func (e *concEngine) Run(a *agg, spec *PropSpec, seed uint64) {
 		o = &deep
 	}
 	cc := genConcCase(&rng, o)
-	cc.Mode = &ConcMode{Lin: o.Lin, Rounds: o.Rounds, NoCleanup: o.NoCleanup, SweepCheck: o.SweepCheck, AsyncClock: o.AsyncClock}
+	cc.Mode = &ConcMode{Lin: o.Lin, Rounds: o.Rounds, NoCleanup: o.NoCleanup, SweepCheck: o.SweepCheck, AsyncClock: o.AsyncClock, Admission: o.Admission}
 	if o.SweepCheck {
 		cc.Mode.FarSweep = rng.Intn(2) == 0
 	}
